@@ -265,6 +265,7 @@ class AssocSym(Sym):
                     lst = list(s2.contents.get(recv, []))
                     if name == 'insert_or_assign':
                         lst[i] = (ki, v)
+                        s2.effects.append(('write', ('mapval', recv, i), v))
                     s2.contents[recv] = lst
                     outs.append((s2, ('mapit', recv, i)))
                     if t is True:
@@ -291,12 +292,34 @@ class AssocSym(Sym):
                 return outs
             if name in ('end', 'cend') and not args:
                 return [(st, ('mapend', recv))]
+            if name == 'operator[]' and len(args) == 1:
+                # m[k]: the value slot of the entry for k, created (null) when there is none
+                k = args[0]
+                outs = []
+                cur = st
+                for i, (ki, _vi) in enumerate(ents):
+                    t = self.truth(('op', '==', k, ki), cur)
+                    if t is False:
+                        continue
+                    s2 = cur if t is True else cur.fork()
+                    if t is None:
+                        s2.conds.append((('op', '==', k, ki), True))
+                        cur.conds.append((('op', '==', k, ki), False))
+                    outs.append((s2, ('mapval', recv, i)))
+                    if t is True:
+                        return outs
+                cur.contents[recv] = list(cur.contents.get(recv, [])) + [(k, ('k', 0, 'null'))]
+                outs.append((cur, ('mapval', recv, len(cur.contents[recv]) - 1)))
+                return outs
         if callee.get('repo') is False and name in ('operator==', 'operator!=') and len(args) + (recv is not None) == 2:
             a, b = ([recv] + list(args)) if recv is not None else args
             if all(isinstance(x, tuple) and x[:1] in (('mapit',), ('mapend',)) for x in (a, b)):
                 return [(st, ('k', int((a == b) == (name == 'operator==')), 'bool'))]
         if callee.get('repo') is False and name in ('operator->', 'operator*') and isinstance(recv, tuple) and recv[:1] == ('mapit',):
             k, v = st.contents[recv[1]][recv[2]]
+            for eff in st.effects:                                      # a value assigned through m[k] = v (the last such write)
+                if eff[0] == 'write' and eff[1] == ('mapval', recv[1], recv[2]):
+                    v = eff[2]
             o = st.new_obj('std::pair', origin=('aggregate',))
             st.heap[o[1]].fields.update({'first': k, 'second': v})
             return [(st, ('addr', o) if name == 'operator->' else o)]
@@ -391,8 +414,16 @@ def latest_binding_rule(ck, F):
     buckets = {'q is b': [], 'q is a, not b': [], 'q is neither': []}
     for st, k, v in finals:
         r = v
-        while isinstance(r, tuple) and r[:1] in (('deref',), ('addr',)) and isinstance(r[1], tuple) and r[1][:1] in (('addr',), ('deref',), ('param',)):
-            r = r[1]
+        for _ in range(8):
+            if not (isinstance(r, tuple) and r[:1] == ('deref',)):
+                break
+            inner = S.rvalue(r[1], st)          # a pointer read from a pair / a slot: its stored value
+            if isinstance(inner, tuple) and inner[:1] == ('addr',):
+                r = inner[1]
+            elif inner != r[1]:
+                r = ('deref', inner)
+            else:
+                break
         qb, qa = same(st, Q, B), same(st, Q, A)
         if k != 'return':
             buckets['q is neither'].append(f'throws {v}')
